@@ -32,6 +32,15 @@ REGISTRY = dict(
     technique="machine-checked proof in Coq (case analysis / list arithmetic over shapes; lra over Q) + regenerated-fragment interface lemmas + differential correspondence on real policies",
 )
 
+COV_TARGETS = {
+    "stable_baselines3/common/policies.py": ["BaseModel.obs_to_tensor", "BaseModel.is_vectorized_observation", "BasePolicy.predict", "BasePolicy.scale_action", "BasePolicy.unscale_action"],
+    "stable_baselines3/common/preprocessing.py": ["is_image_space_channels_first", "is_image_space", "maybe_transpose", "preprocess_obs"],
+    "stable_baselines3/common/utils.py": ["is_vectorized_box_observation", "is_vectorized_discrete_observation", "is_vectorized_multidiscrete_observation",
+                                          "is_vectorized_multibinary_observation", "is_vectorized_dict_observation", "is_vectorized_observation"],
+    "stable_baselines3/dqn/dqn.py": ["DQN.predict"],
+    "stable_baselines3/common/torch_layers.py": ["create_mlp"],
+}
+
 HEADER = """From Coq Require Import List ZArith QArith Bool.
 From SB3V Require Import Model.Shapes.
 Import ListNotations.
@@ -39,7 +48,7 @@ Local Open Scope Z_scope.
 """
 
 RANK0_SIG = "box-rank0-observation-rejected"
-OBS_KINDS = ["box0", "box4", "box1", "box2", "box3", "image_hwc", "image_chw", "image_gray", "discrete", "multidiscrete", "multibinary", "multibinary2", "dict", "dict_img"]
+OBS_KINDS = ["uint8_nonimage", "image_mid", "box0", "box4", "box1", "box2", "box3", "image_hwc", "image_chw", "image_gray", "discrete", "multidiscrete", "multibinary", "multibinary2", "dict", "dict_img"]
 ACT_KINDS = ["box", "box_asym", "box_md", "discrete", "multidiscrete", "multibinary"]
 
 
@@ -79,6 +88,8 @@ def make_spaces(case):
         "box2": lambda: spaces.Box(-3, 3, (d[0], d[1]), dtype=np.float32),
         "box3": lambda: spaces.Box(-3, 3, (d[0], d[1], d[2]), dtype=np.float32),
         "box0": lambda: spaces.Box(-3, 3, (), dtype=np.float32),
+        "uint8_nonimage": lambda: spaces.Box(0, 200, (4, 3, 3), dtype=np.uint8),       # rank 3, uint8, but bounds are not [0, 255]: not an image
+        "image_mid": lambda: spaces.Box(0, 255, (40, 36, 44), dtype=np.uint8),           # smallest dimension in the middle: treated as channels-last (warning)
         "box4": lambda: spaces.Box(-3, 3, (d[0], 2, d[1], d[2]), dtype=np.float32),
         "image_hwc": lambda: spaces.Box(0, 255, (36, 36, 3), dtype=np.uint8),
         "image_chw": lambda: spaces.Box(0, 255, (3, 36, 36), dtype=np.uint8),
@@ -266,6 +277,14 @@ def run_impl(case):
     r_batch = trial("batchn", batch(many))
     if isinstance(ob, spaces.Discrete):
         trial("python_int", int(one), is_int=True)
+    # the documented mistake "obs, info = env.reset()" passed on as a tuple must be refused with a ValueError
+    try:
+        model.predict((one, {}), deterministic=True)
+        extra_tuple = "accepted"
+    except ValueError as ex:
+        extra_tuple = "ValueError"
+    except Exception as ex:  # noqa: BLE001
+        extra_tuple = type(ex).__name__
     if algo == "DQN":
         trial("eps_single", one, eps=1.0)
         trial("eps_batchn", batch(many), eps=1.0)
@@ -392,7 +411,7 @@ def run_impl(case):
                 feat_probs.append((kind, f"{tag}: network input {str(got.reshape(-1)[:8].tolist())} is not the expected encoding {str(exp.reshape(-1)[:8].tolist())} of the observation"))
 
     bm = batch(many)
-    extra = {}
+    extra = {"gym_tuple": extra_tuple}
     # (a) state / episode_start are passed through untouched by non-recurrent policies
     try:
         st_in = (np.zeros((1, 2), dtype=np.float32),)
@@ -456,7 +475,17 @@ def run_impl(case):
 
 
 def _worker(case):
+    from harness import cov_collect as branchcov
+
     try:
+        if branchcov.enabled():
+            branchcov.start(list(COV_TARGETS))
+            try:
+                res = run_impl(case)
+            finally:
+                cov = branchcov.stop()
+            res["cov"] = cov
+            return res
         return run_impl(case)
     except Exception:  # noqa: BLE001
         import traceback
@@ -560,6 +589,8 @@ def judge(case, impl, vals):
         if want != xt["md_row"]["feat"]:
             probs.append(("oracle-one-hot-concat-order", f"MultiDiscrete observation {xt['md_row']['vals']} of nvec {xt['md_row']['nvec']}: network input {xt['md_row']['feat']}, expected {want}"))
         k += 1
+    if xt.get("gym_tuple") not in (None, "ValueError") and not (ps["kind"] == "box" and ps["shape"] == []):
+        probs.append(("oracle-gym-api-tuple-not-refused", f"predict((obs, info)) gave {xt['gym_tuple']} instead of the documented ValueError"))
     st = xt.get("state")
     if st:
         if "exception" in st:
@@ -618,6 +649,10 @@ def _mlp_worker(grid):
     import torch as th
     from stable_baselines3.common.torch_layers import create_mlp
 
+    from harness import cov_collect
+
+    if cov_collect.enabled():
+        cov_collect.start(list(COV_TARGETS))
     res = []
     for g in grid:
         try:
@@ -640,7 +675,12 @@ def _mlp_worker(grid):
             res.append(row)
         except Exception as ex:  # noqa: BLE001
             res.append("exception " + repr(ex)[:200])
+    if cov_collect.enabled():
+        res.append({"cov": cov_collect.stop()})
     return res
+
+
+MLP_COV = []
 
 
 def mlp_stream(chk):
@@ -649,6 +689,7 @@ def mlp_stream(chk):
     grid = mlp_grid()
     with mp.get_context("fork").Pool(1) as pool:
         impl = pool.apply(_mlp_worker, (grid,))
+    MLP_COV[:] = impl.pop()["cov"] if impl and isinstance(impl[-1], dict) else []
     exprs = [f"show_mlp 5 {coq_Z(g['out'])} {coq_list(g['arch'], coq_Z)} {coq_bool(g['squash'])} {coq_bool(g['bias'])} {coq_nat(g['npre'])} {coq_nat(g['npost'])}" for g in grid]
     vals = common.coq_eval_many(chk.pid + "_mlp", HEADER, exprs, shard=150, procs=2)
     probs = []
@@ -743,6 +784,11 @@ def main():
         "Discrete / MultiDiscrete observation spaces start at 0 (non-zero starts are documented as unsupported)",
         "numpy reshape / squeeze and torch concatenation of per-key features are tied to the model by this correspondence only",
     ]
+    from harness import cov_collect as branchcov
+
+    if branchcov.enabled():
+        executed = {tuple(x) for im in impls for x in (im.get("cov") or [])} | {tuple(x) for x in MLP_COV}
+        chk.notes["branchcov"] = {"targets": {k: v for k, v in COV_TARGETS.items()}, "never_executed": branchcov.report(COV_TARGETS, executed)}
     return chk.finish()
 
 
